@@ -247,6 +247,21 @@ func (c *Ctx) provablyDistinct(a, b T) bool {
 	if isIntNumeral(a.S) && isIntNumeral(b.S) {
 		return a.S != b.S
 	}
+	if ba, na, ok := splitBaseOff(a.S); ok {
+		if bb, nb, ok2 := splitBaseOff(b.S); ok2 {
+			if ba == bb {
+				return na != nb
+			}
+			// object ids: a parameter's id lies below every allocation counter, and
+			// ids handed out from different counters never coincide (an id is below
+			// the counter value at every later program point)
+			fa, fb := strings.HasPrefix(ba, "alloc!"), strings.HasPrefix(bb, "alloc!")
+			pa, pb := strings.Contains(ba, "_id!"), strings.Contains(bb, "_id!")
+			if (fa && fb) || (fa && pb && c.isParamID(bb)) || (fb && pa && c.isParamID(ba)) {
+				return true
+			}
+		}
+	}
 	if ga, ok := c.distinctGrp[a.S]; ok {
 		if gb, ok := c.distinctGrp[b.S]; ok && ga == gb && a.S != b.S {
 			return true
@@ -439,3 +454,22 @@ func sanitize(s string) string {
 	}
 	return r
 }
+
+// splitBaseOff splits "(+ base n)" / "base" into (base, n).
+func splitBaseOff(s string) (string, int, bool) {
+	if strings.HasPrefix(s, "(+ ") && strings.HasSuffix(s, ")") {
+		f := strings.Fields(s[3 : len(s)-1])
+		if len(f) == 2 && isDigits(f[1]) && !strings.ContainsAny(f[0], "()") {
+			n := 0
+			fmt.Sscan(f[1], &n)
+			return f[0], n, true
+		}
+		return "", 0, false
+	}
+	if s != "" && !strings.ContainsAny(s, "() ") && strings.Contains(s, "!") {
+		return s, 0, true
+	}
+	return "", 0, false
+}
+
+func (c *Ctx) isParamID(sym string) bool { return c.paramIDs[sym] }
